@@ -49,6 +49,10 @@ func c17(mode, in, out string) error {
 		return runCases(in, out, c17Record)
 	case "selftest":
 		return runCasesSerial(in, out, c17SelfTest)
+	case "history":
+		return runCases(in, out, c17HistoryCase)
+	case "histrecord":
+		return runCases(in, out, c17HistRecord)
 	}
 	return fmt.Errorf("c17: unknown mode %q", mode)
 }
